@@ -89,7 +89,7 @@ def drv_features(ctx, k, rng):
         with torch.no_grad():
             full = ff.get(None)
             for i in range(T):
-                one = ff.get(i)
+                one = ff.get(i) if (i + k) % 3 else ff[i]  # feature[i] is the older spelling of feature.get(i)
                 ctx.seen(mon)
                 col = full[:, [i]]
                 if name in ("time_to_maturity", "expiry_time"):
